@@ -35,6 +35,9 @@ const INITIAL_MAXIMUM_ACK_LENGTH: u32 = 128;
 
 const PAYLOAD_TRANSFER_SIZE: u32 = 1024 * 64;
 
+/// `GenApi` XML file is retrieved in steps of this size.
+const XML_READ_STEP: usize = 1024 * 1024;
+
 /// Maximum data length a single `WriteMem` command can carry.
 /// The length field of a command is 16 bits wide and also counts the 8 bytes of the address.
 const MAXIMUM_WRITE_MEM_DATA_LENGTH: usize = u16::MAX as usize - 8;
@@ -252,7 +255,10 @@ impl ControlHandle {
         T: cmd::CommandScd,
         U: ack::ParseScd<'a>,
     {
+        // Every command gets its own request id whatever its outcome is, so that a late
+        // acknowledge of an abandoned command is never taken for the one of a later command.
         let cmd = cmd.finalize(self.next_req_id);
+        self.next_req_id = self.next_req_id.wrapping_add(1);
         let cmd_len = cmd.cmd_len();
         let ack_len = cmd.maximum_ack_len();
         let ack_kind = match cmd.ccd().scd_kind() {
@@ -279,6 +285,12 @@ impl ControlHandle {
                 .recv(&mut self.buffer, self.config.timeout_duration)?;
 
             let ack = ack::AckPacket::parse(&self.buffer[0..recv_len])?;
+
+            // Discard an acknowledge which belongs to another (abandoned) command.
+            if ack.request_id() != cmd.request_id() {
+                retry_count -= 1;
+                continue;
+            }
             self.verify_ack(&ack)?;
 
             // Retry up to retry count.
@@ -297,7 +309,6 @@ impl ControlHandle {
                 ))));
             }
 
-            self.next_req_id = self.next_req_id.wrapping_add(1);
             ok = Some(recv_len);
             break;
         }
@@ -310,7 +321,7 @@ impl ControlHandle {
                 .scd_as()?)
         } else {
             Err(ControlError::Io(anyhow::Error::msg(
-                "the number of times pending was returned exceeds the retry_count.",
+                "the number of times pending or an unrelated acknowledge was returned exceeds the retry_count.",
             )))
         }
     }
@@ -322,10 +333,6 @@ impl ControlHandle {
                 "invalid status: {:?}",
                 ack.status().kind()
             ))));
-        }
-
-        if ack.request_id() != self.next_req_id {
-            return Err(ControlError::Io(anyhow::Error::msg("request id mismatch")));
         }
 
         Ok(())
@@ -500,8 +507,18 @@ impl DeviceControl for ControlHandle {
 
         // Store current capacity so that we can set back it after XML retrieval because this needs exceptional large size of internal buffer.
         let current_capacity = self.buffer_capacity();
-        let mut buf = vec![0; file_size];
-        unwrap_or_log!(self.read(file_address, &mut buf));
+        // The file size is advertised by the device and can't be trusted, so the buffer isn't
+        // allocated up front but grows step by step while the data actually arrives.
+        let mut buf = Vec::new();
+        while buf.len() < file_size {
+            let offset = buf.len();
+            let step = XML_READ_STEP.min(file_size - offset);
+            let address = unwrap_or_log!(file_address.checked_add(offset as u64).ok_or_else(|| {
+                ControlError::InvalidDevice("XML file exceeds the 64 bit address space".into())
+            }));
+            buf.resize(offset + step, 0);
+            unwrap_or_log!(self.read(address, &mut buf[offset..]));
+        }
         self.resize_buffer(current_capacity);
 
         // Verify retrieved xml has correct hash.
